@@ -19,9 +19,15 @@ NOTES = {
  "C19-1": "first missed; FORWARDER requires every reaching definition to derive from the received context, and C09 got the slot-context rule",
  "C15-1": "NOT reported: the retry counter is reset after the failure was counted instead of before - counting attempts against the configuration is value level and explicitly not decided (C15 decides the sequencing of attempts only)",
  "C15-3": "first missed; SEQUENTIAL-INNER-GUARD now also requires that the inner error path closes the subscription the guard tests",
- "C04-1": "NOT reported: SampleWhen forgets to clear its has-value flag (re-emits the last value on every tick) - value level",
+ "C04-1": "first NOT reported (classified value level); a second agent produced the same slip independently (C05-6) and CONSUME-FLAG now reports both",
  "C04-2": "first missed by C04 (reported by C12); STATE-LEVEL added to C04",
  "C04-3": "NOT reported: Max seeds its maximum with the zero value (wrong result for all-negative input) - value level",
+ "C05-4": "round 2; first missed; PUBLISH-BEFORE-EMIT added", "C05-5": "round 2; first missed by C05 (reported by C12); STATE-LEVEL added to C05", "C05-6": "round 2; first missed; CONSUME-FLAG added",
+ "C03-4": "round 2; first missed by C03 (reported by C10); SUBJECT-DELIVERS added to C03", "C03-5": "round 2; first missed by C03 (reported by C14); AWAITED-REGISTERED split out and added to C03", "C03-6": "round 2",
+ "C01-4": "round 2; first missed by C01 (reported by C02); MULTI-PRODUCER=>SAFE added to C01", "C01-5": "round 2", "C01-6": "round 2",
+ "C07-4": "round 2; first missed; CORE-RECOVER now requires the teardown registration inside the try", "C07-5": "round 2; first missed; SLOT-GUARD-AGREEMENT added", "C07-6": "round 2",
+ "C09-4": "round 2; first missed; CONTEXT-REWRITER-UNIFORM added", "C09-5": "round 2", "C09-6": "round 2; first missed; loop pass-context clause of CALLBACK-CTX-USED added",
+ "C12-4": "round 2", "C12-5": "round 2; first missed; BUILD-TIME-STATE (clock reading at build time) added", "C12-6": "round 2; first missed; BUILD-TIME-STATE (stateful closure factory) added",
  "C16-1": "first missed; WATCHDOG-REARM added", "C16-2": "first missed; STATE-LEVEL added to C16 (the counter of a periodic source is per-subscription state)",
  "C20-2": "first missed by C20 (reported by C12): a change to core GroupBy; C20 now re-checks the core premises of the native limiter", "C20-3": "first missed by C20 (reported by C10/C02): a change to the core unicast subject; C20 now re-checks the core premises of the native limiter",
 }
